@@ -37,6 +37,7 @@ type Case struct {
 	Kinds  []string `json:"kinds"`
 	Unsub  int      `json:"unsub"`
 	Expect []int    `json:"expect"`
+	Stall  bool     `json:"stall"` // hold the handler inside the first message until the whole sequence is published
 }
 
 type Violation struct {
@@ -122,6 +123,13 @@ func wrongOpMsg() []byte {
 	return wire.Frame(buf.Bytes())
 }
 
+func kindsText(c Case) string {
+	if c.Stall {
+		return fmt.Sprintf("%d x ok behind a held handler", len(c.Kinds))
+	}
+	return fmt.Sprint(c.Kinds)
+}
+
 func runCase(b broker, workers int, c Case) {
 	runSeq++
 	user := fmt.Sprintf("u%d", runSeq)
@@ -132,11 +140,19 @@ func runCase(b broker, workers int, c Case) {
 	var events []string
 	ev := func(s string) { events = append(events, s) }
 	sub := verifrpc.NewEventsSubscriber(prov)
+	stallCh := make(chan struct{})
 	s, err := sub.SubscribeItemAdded(user, func(ctx frugal.FContext, it *verifbase.Item) {
 		mu.Lock()
+		first := len(log) == 0
 		log = append(log, delivery{it.ID, ctx.RequestHeaders(), ctx.CorrelationID(), it, time.Now()})
 		ev(fmt.Sprintf("{\"ev\":\"deliver\",\"id\":%d,\"kind\":\"\"}", it.ID))
 		mu.Unlock()
+		if c.Stall && first {
+			select {
+			case <-stallCh:
+			case <-time.After(20 * time.Second):
+			}
+		}
 	})
 	if err != nil {
 		fmt.Fprintln(os.Stderr, "subscribe:", err)
@@ -161,7 +177,7 @@ func runCase(b broker, workers int, c Case) {
 	pub.Open()
 	replay := map[string]interface{}{"transport": b.name(), "workers": workers, "case": c}
 	fail := func(key, text string) {
-		res.Violations = append(res.Violations, Violation{b.name() + "/" + key, fmt.Sprintf("%s, %d worker(s), kinds %v, unsubscribe before #%d: %s", b.name(), workers, c.Kinds, c.Unsub, text), replay})
+		res.Violations = append(res.Violations, Violation{b.name() + "/" + key, fmt.Sprintf("%s, %d worker(s), kinds %v, unsubscribe before #%d: %s", b.name(), workers, kindsText(c), c.Unsub, text), replay})
 	}
 	next := int64(0)          // sequential message number (trace ids)
 	caseID := map[int64]int{} // message number -> position in c.Kinds (1-based), 0 for sentinels
@@ -237,13 +253,14 @@ func runCase(b broker, workers int, c Case) {
 		}
 		publish(k, i+1)
 	}
+	close(stallCh)
 	if !unsubscribed {
 		if alive && !quiesce() {
 			fail("sentinel-lost", "a well-formed message published after the sequence was never delivered (a bad message stopped delivery)")
 		}
 		// other workers may still be handling earlier messages
 		want := len(c.Expect) + len(sentinels)
-		for dl := time.Now().Add(400 * time.Millisecond); countDelivered() < want && time.Now().Before(dl); {
+		for dl := time.Now().Add(400*time.Millisecond + time.Duration(len(c.Kinds))*time.Millisecond); countDelivered() < want && time.Now().Before(dl); {
 			time.Sleep(200 * time.Microsecond)
 		}
 	} else {
@@ -350,7 +367,7 @@ func runCase(b broker, workers int, c Case) {
 			res.Notes = append(res.Notes, b.name()+": Unsubscribe did not return within 1 s at the end of a run")
 		}
 	}
-	if tw != nil && b.name() == "nats" {
+	if tw != nil && b.name() == "nats" && !c.Stall {
 		for _, e := range evs {
 			tw.WriteString(e + "\n")
 		}
